@@ -444,11 +444,20 @@ Record faults := mk_faults {
   ft_src_shard_missing : bool; (* Store.BackupShard: "shard doesn't exist on this server": connection closed, no byte sent *)
   ft_snap : snap_oracle;     (* CreateSnapshot on the source *)
   ft_cut : option Z;         (* the backup connection is cut after this many bytes *)
+  ft_src_fail : option (nat * bool);
+                             (* tar.Stream fails on the source after this many members were written completely
+                                (a snapshot file cannot be lstat'ed / opened / read); true = the header of the
+                                next member had already been written *)
   ft_create_shard : bool;    (* CreateShard on the destination fails *)
   ft_response_lost : bool    (* the CopyShard response does not reach the meta node *)
 }.
 
-Definition no_faults : faults := mk_faults false false SnapIdle None false false.
+Definition no_faults : faults := mk_faults false false SnapIdle None None false false.
+
+(* how the stream ends when tar.Stream returns an error on the source: no end-of-archive marker
+   is written (Stream closes the tar writer only after a complete walk) and the connection is
+   closed; a header without its body leaves the reader inside a member *)
+Definition source_error_end (header_written : bool) : end_kind := if header_written then EndTorn else EndClean.
 
 Record copy_result := mk_copy_result {
   cr_src : shard;                 (* source afterwards *)
@@ -469,7 +478,11 @@ Definition copy_shard (ft : faults) (stem : name) (now : Z) (base : name) (sizes
       if ft_src_shard_missing ft then (src, [], O, EndClean)
       else match backup (ft_snap ft) stem now base None src with
            | None => (src, [], O, EndClean)                       (* error before the first byte: the connection is just closed *)
-           | Some (s', ms) => let '(n, ek) := stream_end sizes (ft_cut ft) (length ms) in (s', ms, n, ek)
+           | Some (s', ms) =>
+               match ft_src_fail ft with
+               | Some (k, hdr) => (s', ms, k, source_error_end hdr)
+               | None => let '(n, ek) := stream_end sizes (ft_cut ft) (length ms) in (s', ms, n, ek)
+               end
            end in
     if ft_create_shard ft then mk_copy_result src' dst false owners
     else
